@@ -6,6 +6,7 @@ from hypothesis import strategies as st
 
 from vlib import fakegit
 from vlib.core import Outcome, Part
+from vlib.guard import call_budget, Diverged
 
 ID = "C06"
 RULE = ("fake git repositories: DAG of <=10 (quick) / <=18 (thorough) commits with 0-3 parents (several roots, merges, "
@@ -15,6 +16,7 @@ RULE = ("fake git repositories: DAG of <=10 (quick) / <=18 (thorough) commits wi
         "30-day window. Non-trivial = >=2 branches and (a merge commit, >=2 roots, a head inside another branch, or a matching "
         "commit listed in >=2 branches); distinct by case hash.")
 ASSUMPTIONS = [
+    "more than 400k Python calls inside ak/ghist.py for a history of <=18 commits is a divergence (normal runs need a few thousand)",
     "'contains the search text' is plain substring containment on the whole commit message",
     "when several minimal builds contain a commit (parallel tagged sub-branches) any one of them is accepted",
     "a commit carrying two build tags shows the smaller build number",
@@ -96,12 +98,15 @@ def evaluate(case):
     repo = fakegit.FakeRepo(spec)
     Cls = fakegit.make_project_repo_class(G)
     try:
-        prj = Cls("main", repo, "origin")
-        coll = G.ReposCollection({"main": prj})
-        data = coll.make_reports_data(case["search"])
-        rgraph = dict(data)["main"]
-        listing = fakegit.extract_listing(rgraph)
-        text = str(coll.make_report(case["search"]).ch_text(no_color=True)) if case.get("render") else None
+        with call_budget(400000, "ak/ghist.py"):
+            prj = Cls("main", repo, "origin")
+            coll = G.ReposCollection({"main": prj})
+            data = coll.make_reports_data(case["search"])
+            rgraph = dict(data)["main"]
+            listing = fakegit.extract_listing(rgraph)
+            text = str(coll.make_report(case["search"]).ch_text(no_color=True)) if case.get("render") else None
+    except Diverged as e:
+        return Outcome(True, [], [("report_diverges", f"{e}; spec={spec!r}")])
     except Exception as e:   # noqa
         import traceback
         where = traceback.extract_tb(e.__traceback__)[-1].name
